@@ -2,7 +2,7 @@
 From Coq Require Import String.
 From Coq Require Import List NArith ZArith Bool Lia.
 From Dials Require Import Base.Outcome Base.Runes Reflect.Ty Stack.Overlay Text.CaseConv
-  Text.GoCamelSpec Text.GoCamelProofs Text.GoCamelFacts Text.ParseText
+  Text.GoCamelSpec Text.GoCamelProofs Text.GoCamelFacts Text.ParseInt Text.ParseIntProofs Text.Split Text.ParseText
   Sources.Flatten Sources.FlattenSpec Sources.FlattenProofs Sources.Env Sources.EnvSpec.
 Import ListNotations.
 Open Scope list_scope.
@@ -185,18 +185,40 @@ Proof.
     + destruct (count_none _ Hc) as (_ & _ & _ & Hp). rewrite Hp. constructor; auto.
 Qed.
 
-Lemma cast_some_set t s x : cast t (Some s) = Ok x -> is_set x = true.
+Lemma of_pval_set v : is_vnil (of_pval v) = false.
+Proof. destruct v; reflexivity. Qed.
+
+Lemma parse_text_set t s x : parse_text t s = Ok x -> is_set x = true.
 Proof.
-  destruct t; simpl; try discriminate.
-  - destruct (parse_text t s); simpl; try discriminate. intros H. inversion H. reflexivity.
+  unfold parse_text, is_set. destruct (to_ps t) as [pt|].
+  - destruct (PS.parse_string isp0 true true pt s); simpl; intros H; inversion H. now rewrite of_pval_set.
+  - destruct t; simpl; try discriminate.
+    + destruct (str_eqb name duration_name).
+      * destruct k; try discriminate. destruct bits as [|p]; try discriminate.
+        repeat (destruct p; try discriminate).
+        destruct (parse_duration s); simpl; intros H; inversion H; reflexivity.
+      * destruct k; try discriminate.
+        -- destruct (parse_float bits s); simpl; intros H; inversion H; reflexivity.
+        -- unfold parse_complex.
+           destruct (fst (complex_parts bits s)); simpl; try discriminate.
+           destruct (snd (complex_parts bits s)); simpl; try discriminate.
+           intros H; inversion H; reflexivity.
+    + destruct (string_slice isp0 s); simpl; try discriminate.
+      destruct (map_out (parse_extra t) a); simpl; intros H; inversion H; reflexivity.
 Qed.
 
-Lemma cast_ptr t s x : cast t (Some s) = Ok x ->
-  exists e y, t = TPtr e /\ x = VPtr y /\ parse_text e s = Ok y.
+Lemma cast_some_set t s x : cast t (Some s) = Ok x -> is_set x = true.
 Proof.
-  destruct t; simpl; try discriminate.
-  destruct (parse_text t s) eqn:E; simpl; try discriminate. intros H. inversion H. eauto.
+  destruct t; simpl; try discriminate; try apply parse_text_set.
+  destruct (parse_text t s); simpl; try discriminate. intros H. inversion H. reflexivity.
 Qed.
+
+(* what a present variable gives at each kind of leaf *)
+Lemma cast_char t s :
+  cast (TPtr t) (Some s) = omap VPtr (parse_text t s) /\
+  (forall e n, cast (TSlice e n) (Some s) = parse_text (TSlice e n) s) /\
+  (forall k e n, cast (TMap k e n) (Some s) = parse_text (TMap k e n) s).
+Proof. repeat split. Qed.
 
 Lemma Forall2_Forall_r {A B} (R : A -> B -> Prop) (P : B -> Prop) (Q : A -> B -> Prop) la lb :
   Forall2 R la lb -> Forall P lb -> (forall a b, R a b -> P b -> Q a b) -> Forall2 Q la lb.
@@ -246,13 +268,12 @@ Theorem env_value_parsed_l prefix pfs env vs :
   env_supported pfs = true -> env_value prefix pfs env = Ok vs ->
   exists plan, env_plan prefix pfs = Ok plan /\
     Forall2 (fun lv x => forall s, lookup_env env (snd lv) = Some s ->
-               exists e y, lf_ty (fst lv) = TPtr e /\ x = VPtr y /\ parse_text e s = Ok y)
+               cast (lf_ty (fst lv)) (Some s) = Ok x)
             plan (leaves_of pfs vs).
 Proof.
   intros Hs H. destruct (env_leaves_l _ _ _ _ Hs H) as (plan & Hplan & HF).
   exists plan. split; auto.
-  eapply Forall2_imp; [|exact HF]. intros [l v] x Hc s Hl. simpl in *. rewrite Hl in Hc.
-  now apply cast_ptr.
+  eapply Forall2_imp; [|exact HF]. intros [l v] x Hc s Hl. simpl in *. now rewrite Hl in Hc.
 Qed.
 
 (* ---- frame: only the variables named by the leaves matter ---- *)
@@ -302,21 +323,42 @@ Proof.
   destruct Hin as [->|Hin]; auto. simpl in Hc. rewrite Hl in Hc. exact (Hbad _ Hc).
 Qed.
 
-(* out-of-range integers are errors: a parsed integer always fits its width *)
-Lemma parse_text_int_in_range w name s v :
-  parse_text (TBasic (KInt w) name) s = Ok v -> str_eqb name duration_name = false ->
-  exists z, v = VInt z /\ in_int_range w z = true.
+(* ---- integers: corollaries of C15 (int_never_wraps / uint_never_wraps):
+   the parsed value is the literal's value and fits the leaf's width; a
+   literal outside the range is an error ---- *)
+Lemma parse_text_int_spec w name s v :
+  str_eqb name duration_name = false ->
+  (parse_text (TBasic (KInt w) name) s = Ok v <->
+   exists z, v = VInt z /\ lit_value s = Some z /\ in_srange (sw_of w) z = true).
 Proof.
-  simpl. intros H Hn. rewrite Hn in H.
-  destruct (parse_int 64 s) as [z| |]; simpl in H; try discriminate.
-  destruct (in_int_range w z) eqn:E; inversion H. eauto.
+  intros Hn. unfold parse_text. simpl. rewrite Hn. simpl.
+  pose proof (parse_number_int_spec (sw_of w) s) as Hspec.
+  destruct (parse_number_int (sw_of w) s) as [z| |] eqn:E; simpl; split.
+  - intros H. inversion H. exists z. split; auto. now apply Hspec.
+  - intros (z' & -> & Hl & Hr). f_equal. f_equal.
+    assert (Ok z = Ok z') by (apply Hspec; auto). congruence.
+  - discriminate.
+  - intros (z' & _ & Hl & Hr). assert (Err code = Ok z') by (apply Hspec; auto). discriminate.
+  - discriminate.
+  - intros (z' & _ & Hl & Hr). assert (Panic code = Ok z') by (apply Hspec; auto). discriminate.
 Qed.
 
-Lemma parse_text_uint_in_range w name s v :
-  parse_text (TBasic (KUint w) name) s = Ok v -> str_eqb name duration_name = false ->
-  exists n, v = VInt (Z.of_N n) /\ in_uint_range w n = true.
+Lemma parse_text_uint_spec w name s v :
+  str_eqb name duration_name = false -> (w =? 1)%N = false ->
+  (parse_text (TBasic (KUint w) name) s = Ok v <->
+   exists n, v = VInt (Z.of_N n) /\ lit_uvalue s = Some n /\ in_urange (uw_of w) n = true).
 Proof.
-  simpl. intros H Hn. rewrite Hn in H. destruct (N.eqb w 1); [discriminate|].
-  destruct (parse_uint 64 s) as [n| |]; simpl in H; try discriminate.
-  destruct (in_uint_range w n) eqn:E; inversion H. eauto.
+  intros Hn Hw. unfold parse_text. simpl. rewrite Hn. simpl.
+  assert (Hu : forall (A : Type) (a b : A), match uw_of w with UPtr => a | _ => b end = b).
+  { intros. unfold uw_of. destruct w as [|p]; auto. repeat (destruct p; auto); discriminate. }
+  rewrite Hu.
+  pose proof (parse_number_uint_spec (uw_of w) s) as Hspec.
+  destruct (parse_number_uint (uw_of w) s) as [z| |] eqn:E; simpl; split.
+  - intros H. inversion H. exists z. split; auto. now apply Hspec.
+  - intros (z' & -> & Hl & Hr). f_equal. f_equal.
+    assert (Ok z = Ok z') by (apply Hspec; auto). congruence.
+  - discriminate.
+  - intros (z' & _ & Hl & Hr). assert (Err code = Ok z') by (apply Hspec; auto). discriminate.
+  - discriminate.
+  - intros (z' & _ & Hl & Hr). assert (Panic code = Ok z') by (apply Hspec; auto). discriminate.
 Qed.
